@@ -25,7 +25,16 @@ func VerifC06Flusher() { verifC06PushClose("C06.flusher") }
 // idle flusher and its shutdown handshake) lie outside the known-finding region.
 func VerifC06Accum() { verifC06PushClose("C06.accum") }
 
+// C06.partial — the same harness with all three thresholds of Push shrunk consistently, so that
+// the three regimes of an address at the moment of a periodic partial flush exist in the scope:
+// "cold" (fewer pending entries than the cold limit: written and removed from the accumulator),
+// "warm" (cold limit <= pending < itemsPerBatch: must stay in the accumulator untouched and be
+// written later by a full batch or by Close) and "full" (handed to the flusher). With the real
+// constants these are < 100, 100..999 and 1000 pending entries.
+func VerifC06Partial() { verifC06PushClose("C06.partial") }
+
 func verifC06PushClose(tag string) {
+	verifC06ColdLimit = verifParam("cold", 100)
 	itemsPerBatch = verifParam("batch", 2)
 	verifC06Parked = verifParam("parked", 2)
 	verifC06AccumLimit = verifParam("accumlimit", 1)
